@@ -69,12 +69,13 @@ Print Assumptions C03_represented_states.
 
 (* ... hence after EVERY valid history of emplace_back / pop_back / erase / clear / reserve from
    construction, for every well-formed list (erase with elements behind the erased ones on
-   trivially relocatable lists, NtRefine.nt_hist_ok) *)
+   trivially relocatable lists and on lists
+   without a VaryingSize parameter, NtRefine.nt_hist_okx) *)
 Theorem C03_every_history : forall L cap budget fixed aid junk bid tbid h,
   wf_plist L = true -> 0 <= cap -> Forall (fun c => 0 <= c) fixed ->
   let v0 := fst (mkvec L cap budget fixed aid junk bid tbid) in
   let s0 := {| s_cap := cap; s_elems := [] |} in
-  shist_valid L (fixed_counts L fixed) s0 h -> nt_hist_ok L s0 h ->
+  shist_valid L (fixed_counts L fixed) s0 h -> nt_hist_okx L s0 h ->
   let v := vrun L junk v0 h in
   let l := s_elems (srun s0 h) in
   forall i, (i < length l)%nat ->
